@@ -524,12 +524,13 @@ func main() {
 	dw := bufio.NewWriter(df)
 	cf, _ := os.Create(out)
 	cw := bufio.NewWriter(cf)
-	evals, nontrivial, loadFailed, reloadDone, rebuildDone, netFiles, histories, interleaves := 0, 0, 0, 0, 0, 0, 0, 0
+	evals, nontrivial, loadFailed, reloadDone, rebuildDone, netFiles, histories, interleaves, boundaries := 0, 0, 0, 0, 0, 0, 0, 0, 0
 	scratch := os.Getenv("VERIF_SCRATCH")
 	if scratch == "" {
 		scratch = filepath.Dir(out)
 	}
 	distinct := map[[32]byte]bool{}
+	casesWritten := 0
 	var samples []string
 	for i := 0; i < n; i++ {
 		r := &rng{s: seed*7919 + uint64(i)}
@@ -633,6 +634,15 @@ func main() {
 				fail(s, size, i, d)
 			}
 		}
+		// G: boundary field values injected into the save, reloaded, saved / exported twice
+		if s, d, cnt, lf := checkBoundary(o0.wire, &rng{s: seed ^ uint64(i*53+11)}); true {
+			evals += cnt
+			boundaries += cnt
+			loadFailed += lf
+			if s != "" {
+				fail(s, size, i, d)
+			}
+		}
 		// F: formats interleaved on one model: an export must not change a later export of another format
 		if s, d, cnt := checkInterleave(sp, idTies); true {
 			evals += cnt
@@ -653,6 +663,7 @@ func main() {
 		}
 		if hr.final != nil && hr.kind == "" && hr.out.err == "" {
 			writeCase(cw, 1000000+i, sp, hr.final, hr.out)
+			casesWritten++
 		}
 		// digest of the id-free outputs for the comparison across processes (GOMAXPROCS env)
 		if !idTies {
@@ -667,6 +678,7 @@ func main() {
 			fmt.Fprintf(dw, "%d %s\n", i, hex.EncodeToString(hh.Sum(nil)))
 		}
 		writeCase(cw, i, sp, b0, o0)
+		casesWritten++
 		if len(samples) < 2 && ties > 0 {
 			samples = append(samples, fmt.Sprintf("case %d: %d buses, %d types, %d enums, %d attrs, ties=%d, idTies=%v", i, len(sp.Buses), len(sp.Types), len(sp.Enums), len(sp.Attrs), ties, idTies))
 		}
@@ -679,11 +691,13 @@ func main() {
 	}
 	dw.Flush()
 	df.Close()
+	fmt.Fprintf(cw, "END %d\n", casesWritten)
 	cw.Flush()
 	cf.Close()
 	sf, _ := os.Create(out + ".summary")
-	fmt.Fprintf(sf, "cases %d\nevaluations %d\nnontrivial %d\ndistinct %d\nloadfailed %d\nreloads %d\nrebuilds %d\ngomaxprocs %d\nreps %d\nnetworkfiles %d\nhistories %d\ninterleaves %d\n",
-		n, evals, nontrivial, len(distinct), loadFailed, reloadDone, rebuildDone, envProcs, reps, netFiles, histories, interleaves)
+	fmt.Fprintf(sf, "written %d\n", casesWritten)
+	fmt.Fprintf(sf, "cases %d\nevaluations %d\nnontrivial %d\ndistinct %d\nloadfailed %d\nreloads %d\nrebuilds %d\ngomaxprocs %d\nreps %d\nnetworkfiles %d\nhistories %d\ninterleaves %d\nboundaries %d\n",
+		n, evals, nontrivial, len(distinct), loadFailed, reloadDone, rebuildDone, envProcs, reps, netFiles, histories, interleaves, boundaries)
 	keys := make([]string, 0, len(kinds))
 	for k := range kinds {
 		keys = append(keys, k)
